@@ -409,7 +409,7 @@ func (r ruleData) toAuditRuleData() (*auditRuleData, error) {
 		for _, syscallNum := range r.syscalls {
 			word := syscallNum / 32
 			bit := 1 << (syscallNum - (word * 32))
-			if int(word) > len(data.Mask) {
+			if int(word) >= len(data.Mask) {
 				return nil, fmt.Errorf("invalid syscall number %v", syscallNum)
 			}
 			data.Mask[word] |= uint32(bit)
@@ -566,6 +566,10 @@ func addSyscall(rule *ruleData, syscall string) error {
 		if !found {
 			return fmt.Errorf("unknown syscall '%v' for arch %v", syscall, arch)
 		}
+	}
+
+	if syscallNum < 0 || syscallNum >= syscallBitmaskSize*32 {
+		return fmt.Errorf("invalid syscall number %v", syscallNum)
 	}
 
 	rule.syscalls = append(rule.syscalls, uint32(syscallNum))
